@@ -66,9 +66,10 @@ type Exec struct {
 	mu      sync.Mutex
 	cancels []context.CancelFunc
 	// results of the settle phase
-	GoalReached bool
-	Stranded    string
-	Script      []string
+	GoalReached    bool
+	slowHeartbeats int
+	Stranded       string
+	Script         []string
 	// SecondCrash, when > 0, arms another kill that many effects after the first restart
 	SecondCrash int
 	Crashes     int
@@ -515,7 +516,16 @@ func (e *Exec) Settle(stableFor, maxWait time.Duration) {
 		default:
 		}
 		var ok bool
-		ok, why = e.goal(e.Snapshot())
+		t0 := time.Now()
+		snap := e.Snapshot()
+		// the reads of this loop double as a heartbeat of the substrate: when listing the three stores takes longer
+		// than 250 ms, or a store RPC of the system under test has been in flight for that long, the machine is starved
+		// and the controllers are slow, not silent
+		if time.Since(t0) > 250*time.Millisecond || e.W.OldestRPCInFlight() > 250*time.Millisecond {
+			e.W.InjectedFault()
+			e.slowHeartbeats++
+		}
+		ok, why = e.goal(snap)
 		if ok {
 			e.GoalReached = true
 			break
@@ -524,7 +534,13 @@ func (e *Exec) Settle(stableFor, maxWait time.Duration) {
 			// the snapshot judged above may be older than the quiet window (on a starved machine reading the stores
 			// takes seconds): judge a snapshot that was taken entirely inside it
 			w0 := e.W.Writes()
-			ok, why = e.goal(e.Snapshot())
+			t1 := time.Now()
+			snap2 := e.Snapshot()
+			if time.Since(t1) > 250*time.Millisecond {
+				e.W.InjectedFault()
+				continue
+			}
+			ok, why = e.goal(snap2)
 			if ok {
 				e.GoalReached = true
 				break
